@@ -119,3 +119,29 @@ WEXPORT int64_t w_kd_erase_iter(const uint8_t* px, const uint8_t* py, const uint
   }
   W_CATCH_ALL
 }
+
+// 3-D tree: insert, erase, exact lookups (the split dimension cycles through three axes)
+typedef KDTree<Vector3<int64_t>, int> Tree3;
+typedef Vector3<int64_t> Pt3;
+WEXPORT int64_t w_kd3_lookup(const uint8_t* px, const uint8_t* py, const uint8_t* pz, const uint8_t* pv, size_t np,
+    const uint8_t* e, size_t ne, const uint8_t* q, int64_t* out) {
+  try {
+    Tree3 t;
+    for (size_t i = 0; i < np; i++) {
+      t.insert(Pt3(px[i], py[i], pz[i]), pv[i]);
+    }
+    for (size_t i = 0; i < ne; i++) {
+      out[KD_ERASE + i] = t.erase(Pt3(e[4 * i], e[4 * i + 1], e[4 * i + 2]), e[4 * i + 3]);
+    }
+    out[KD_SIZE] = static_cast<int64_t>(t.size());
+    Pt3 qp(q[0], q[1], q[2]);
+    try {
+      out[KD_AT] = 100 + t.at(qp);
+    } catch (const std::out_of_range&) {
+      out[KD_AT] = W_OUT_OF_RANGE;
+    }
+    out[KD_EXISTS] = t.exists(qp);
+    return 0;
+  }
+  W_CATCH_ALL
+}
